@@ -515,6 +515,9 @@ pub fn rdata_values(t: u16, serial: u32) -> Vec<Vec<u8>> {
         T_CNAME => vec![rd_name("a.z."), rd_name("b.z."), rd_name("t.y.")],
         T_NS => vec![rd_name("ns1.z."), rd_name("ns2.z."), rd_name("ns3.z.")],
         T_SOA => soa_values(serial),
+        // DNSSEC-related data in an unsigned zone is ordinary data to RFC 2136 (a delegation's DS RRset is
+        // maintained by UPDATE in practice): key tag, algorithm 13, digest type 2, 32-octet digest
+        T_DS => (0u8..3).map(|i| [&[0x12, 0x68 + i, 13, 2][..], &[0xA0 + i; 32][..]].concat()).collect(),
         _ => vec![vec![1, 2, 3]],
     }
 }
@@ -590,7 +593,7 @@ fn pick_name(rng: &mut Rng) -> Labels {
 }
 
 fn pick_type(rng: &mut Rng) -> u16 {
-    [T_A, T_A, T_TXT, T_MX, T_CNAME, T_NS, T_NS, T_SOA][rng.usize_below(8)]
+    [T_A, T_A, T_TXT, T_MX, T_CNAME, T_NS, T_NS, T_SOA, T_A, T_DS][rng.usize_below(10)]
 }
 
 fn existing_keys(z: &Zone) -> Vec<RrKey> {
